@@ -1,6 +1,6 @@
 (** C13 — prompting is demand-exact; written-back answers make the run repeatable. *)
 From Coq Require Import ZArith NArith List Bool.
-From HV Require Import Solver RunLemmas SolverPrompt SolverExamples.
+From HV Require Import Solver RunLemmas SolverDem SolverPrompt SolverUnique SolverExamples.
 Import ListNotations.
 
 (* every prompt (in finished and in aborted runs alike): the input was absent from the supplied inputs, at least one
@@ -10,7 +10,7 @@ Theorem C13_prompts_demand_exact :
   solve C rank fuel R FN I0 hp ans = r ->
   let s := result_state r in
   (forall i nb a, In (EvPrompt i nb a) (trace s) ->
-     alookup i I0 = None /\ nb <> [] /\ (forall f, In f nb -> In i (sireads C s f))) /\
+     alookup i I0 = None /\ nb <> [] /\ (forall f, In f nb -> In i (sireads C s f) /\ In f (solving s))) /\
   NoDup (prompted (trace s)) /\ clean (trace s).
 Proof. exact prompts_demand_exact. Qed.
 
@@ -23,6 +23,16 @@ Theorem C13_rerun_does_not_reask :
                      ~ In (EvPrompt i nb' a) (trace (result_state r')).
 Proof. exact rerun_does_not_reask. Qed.
 
+(* after a run that solved, re-running on the written-back inputs - any attempt order - asks nothing (the user would not
+   even have to be there: every question would be refused) and produces the identical solution *)
+Theorem C13_rerun_quiet :
+  forall (C:catalogue) rank1 rank2 ans1 R FN fuel1 fuel2 I hp1 hp2 s1 s2,
+  cat_wf C ->
+  solve C rank1 fuel1 R FN I hp1 ans1 = inl s1 -> solved s1 = true ->
+  solve C rank2 fuel2 R FN (inp s1) hp2 (fun _ => None) = inl s2 ->
+  solved s2 = true /\ (forall f, alookup f (vals s2) = alookup f (vals s1)) /\ prompted (trace s2) = [].
+Proof. exact rerun_quiet. Qed.
+
 Example C13_nonvacuous :
   match ex_prompt, ex_refused with
   | inl s1, inl s2 => (prompted (trace s1), solved s1, prompted (trace s2), refused s2)
@@ -32,5 +42,7 @@ Proof. vm_compute. reflexivity. Qed.
 
 Goal True. idtac "@@PA C13_prompts_demand_exact". Abort.
 Print Assumptions C13_prompts_demand_exact.
+Goal True. idtac "@@PA C13_rerun_quiet". Abort.
+Print Assumptions C13_rerun_quiet.
 Goal True. idtac "@@PA C13_rerun_does_not_reask". Abort.
 Print Assumptions C13_rerun_does_not_reask.
